@@ -9,3 +9,30 @@ package core_domain
 //@ func CodeFunction.IsGetterSetter
 //@ requires m != nil
 //@ ensures result <==> IsGS(*m)
+
+// ---- C18 / C03 / C04: names of declared methods and of call sites
+
+//@ spec FullName(d CodeDataStruct, f CodeFunction) string := d.Package + "." + d.NodeName + "." + f.Name
+//@ spec CallFull(c CodeCall) string := (c.FunctionName == "") ? (c.Package + "." + c.NodeName) : (c.Package + "." + c.NodeName + "." + c.FunctionName)
+//@ spec HasStatic(f CodeFunction) bool := exists i int :: 0 <= i && i < len(f.Modifiers) && f.Modifiers[i] == "static"
+
+//@ func CodeFunction.IsStatic
+//@ requires m != nil
+//@ ensures result <==> HasStatic(*m)
+
+//@ func CodeFunction.BuildFullMethodName
+//@ requires m != nil
+//@ ensures result == FullName(node, *m)
+
+//@ func CodeCall.BuildFullMethodName
+//@ requires c != nil
+//@ ensures result == CallFull(*c)
+
+//@ spec rec DeclIn(d CodeDataStruct, n int, s string) bool := n <= 0 ? false : (DeclIn(d, n - 1, s) || FullName(d, d.Functions[n - 1]) == s)
+
+//@ func CodeDataStruct.BuildStringMethodMap
+//@ requires d != nil && projectMethods != nil
+//@ modifies projectMethods
+//@ ensures forall s string :: {s in projectMethods} (s in projectMethods) <==> ((s in old(projectMethods)) || DeclIn(*d, len((*d).Functions), s))
+//@ loop 1 invariant forall s string :: {DeclIn(*d, #i, s)} {s in projectMethods} (s in projectMethods) <==> ((s in old(projectMethods)) || DeclIn(*d, #i, s))
+//@ loop 1 invariant projectMethods != nil
